@@ -24,6 +24,8 @@ structure S where
   postponed : List String := []                -- ids whose scheduled time was changed while announced
   quiescing : Bool := false
   noModel : Bool := false                      -- cron configuration: monitors only
+  afterPeek : Bool := false                    -- cron: inside volatileTaskRepo between its Peek and its Pop
+  d18 : Bool := false                          -- cron: an edit landed between that Peek and that Pop (finding D18)
   nontrivial : Bool := false
   deriving Inhabited
 
@@ -67,7 +69,10 @@ def showResp : Resp → String
 
 /-- a tag for the monitors: failures under injected faults also count against C20 -/
 def tagged (s : S) (prop msg : String) : List String :=
-  [s!"MON {prop} {msg}"] ++ (if s.hadFault then [s!"MON C20 ({prop}) {msg}"] else [])
+  if s.d18 then
+    -- open known finding D18: volatileTaskRepo's Peek-then-Pop is not atomic against EditTask
+    [s!"KNOWN {prop} D18 {msg}"] ++ (if s.hadFault then [s!"KNOWN C20 D18 ({prop}) {msg}"] else [])
+  else [s!"MON {prop} {msg}"] ++ (if s.hadFault then [s!"MON C20 ({prop}) {msg}"] else [])
 
 def schedCall (s : S) (a : SAct) (observed : String) : S × List String :=
   let (w', r) := s.w.sched a
@@ -88,8 +93,15 @@ def stepLineCron (s : S) (req : List String) : S × List String :=
       let twice := if s.started.contains id then tagged s "C04" s!"(cron) occurrence {id} started a second time" else []
       let st := if t.state == .dispatched then [] else
         tagged s "C04" s!"(cron) occurrence {id} started while recorded as {t.state.name}, not dispatched"
-      ({ s with started := s.started ++ [id], nontrivial := true, ops := s.ops + 1 }, early ++ twice ++ st)
+      ({ s with started := s.started ++ [id], nontrivial := true, ops := s.ops + 1, announced := some id }, early ++ twice ++ st)
     | _, _, _ => (s, ["DIFF parse bad work line"])
+  | ["ret", "dispatched", id] =>
+    -- the record handed to the work function must be the occurrence the scheduler dispatched
+    match decStr id, s.announced with
+    | some id, some wid => ({ s with announced := none }, if id == wid then [] else
+        [s!"MON C04 (cron) the scheduler dispatched occurrence {id} but the work function was handed {wid}",
+         s!"MON C03 (cron) the scheduler dispatched occurrence {id} but the work function was handed {wid}"])
+    | _, _ => (s, [])
   | ["sel", "result", id] =>
     match decStr id with
     | some id =>
@@ -101,7 +113,10 @@ def stepLineCron (s : S) (req : List String) : S × List String :=
     | some now, some (some h) =>
       (s, if h ≤ now then tagged s "C05" s!"(cron) driver is quiescent at {now} but the head occurrence at {h} is due and not dispatched" else [])
     | _, _ => (s, [])
-  | "q" :: _ :: f :: _ => ({ s with hadFault := s.hadFault || f == "fb" || f == "fa", ops := s.ops + 1 }, [])
+  | "q" :: "peek" :: _ => ({ s with afterPeek := true, ops := s.ops + 1 }, [])
+  | "q" :: "pop" :: _ => ({ s with afterPeek := false, ops := s.ops + 1 }, [])
+  | "u" :: "edit" :: _ => ({ s with d18 := s.d18 || s.afterPeek }, [])
+  | "q" :: _ :: f :: _ => ({ s with afterPeek := false, hadFault := s.hadFault || f == "fb" || f == "fa", ops := s.ops + 1 }, [])
   | ["cx"] => ({ s with hadFault := true }, [])
   | _ => (s, [])
 
